@@ -248,7 +248,8 @@ class GeoBoxBase:
         assert self.crs is not None
         ext = self.extent
         if buffer != 0:
-            buffer = buffer * max(*self.resolution.xy)
+            # resolution is signed, x mirrored rasters have both components negative
+            buffer = buffer * max(*self.resolution.map(abs).xy)
             ext = ext.buffer(buffer)
 
         return ext.to_crs(crs, resolution=self._reproject_resolution(npoints)).dropna()
